@@ -1517,6 +1517,7 @@ fn main() {
     match args.get(1).map(|s| s.as_str()) {
         Some("probe") => probe(),
         Some("probe_bsk") => probe_bsk(),
+        Some("probe_lock") => probe_lock(),
         Some("merge") => cmd_merge(&args[2], args.get(3).map(|s| s.as_str()).unwrap_or("quick")),
         _ => {
             eprintln!("usage: c13_replay probe|merge|roles|rerun ...");
@@ -1541,6 +1542,31 @@ fn probe_bsk() {
         let ex = TransactionExtractor::new(fin).extract();
         println!("{name}: sapling.bsk present = {bsk}; extract = {:?}", ex.map(|t| t.txid()).map_err(|e| format!("{e:?}")));
     }
+}
+
+fn probe_lock() {
+    let b = base_transparent(1);
+    let mut l = logical_of(&b.pczt);
+    // input 0 requires lock time (height) 1000
+    let st = s_tin();
+    let V::Rec(fs) = at_mut(&mut l, &[Step::F(1), Step::F(0), Step::I(0)]) else { panic!() };
+    let S::Rec(names) = &st else { panic!() };
+    let i = names.iter().position(|(n, _)| *n == "required_height_lock_time").unwrap();
+    fs[i] = some(V::U(1000));
+    let j = names.iter().position(|(n, _)| *n == "sequence").unwrap();
+    fs[j] = some(V::U(0xffff_fffe));
+    let p = Pczt::parse(&canonical_bytes(&l)).unwrap();
+    println!("before signing: txid {:?}", pczt_txid(&p));
+    let mut signer = Signer::new(p).unwrap();
+    for (i, sk) in b.tkeys.iter().enumerate() {
+        signer.sign_transparent(i, sk).unwrap();
+    }
+    let signed = signer.finish();
+    println!("signed:         txid {:?}", pczt_txid(&signed));
+    let fin = SpendFinalizer::new(signed).finalize_spends().unwrap();
+    println!("finalized:      txid {:?}", pczt_txid(&fin));
+    let tx = TransactionExtractor::new(fin).extract().unwrap();
+    println!("extracted:      txid {:?} lock_time {}", tx.txid(), tx.lock_time());
 }
 
 fn probe() {
